@@ -120,6 +120,21 @@ def build_stream(kind, dbx, rng, n_events):
         packets.append(packetise(kind, ev, rng))
         if rng.random() < 0.15:
             packets.append(malformed(kind, rng))
+    if kind == "waveshare" and pool.singles:
+        # a packet whose last byte (the checksum) is 0xAA - the first half of the start marker - followed by a stray 0x55 and
+        # then by the next packet: with a read boundary at any place (the per-packet segmentation puts one exactly behind
+        # the checksum) the stray byte is dropped and the next packet is delivered
+        for _ in range(3):
+            d = rng.choice(pool.singles)
+            pb = pool.payload(d)
+            if pb is None:
+                continue
+            for src_ in range(1, 250):
+                p_ = wire.usb_frame(wire.can_id(3, d.pgn, src_, 255), pb)
+                if p_[-1] == 0xAA and b"\xaa\x55" not in p_[2:]:
+                    at = rng.randrange(1, len(packets))
+                    packets[at:at] = [p_, b"\x55"]
+                    break
     return packets, pool
 
 
